@@ -167,7 +167,7 @@ func genPanicSpec(rt *rapid.T) *PanicSpec {
 			s.BArg = vc.leafI(rt, "int", false)
 		}
 	}
-	fc := &fmtConfig{noStar: true, noW: true, noTp: true}
+	fc := &fmtConfig{noStar: true, noW: true, noTp: true, noHugeNumbers: true}
 	s.Dir = fc.genDirective(rt)
 	switch s.Kind {
 	case "stringer!", "pstringer!", "err!", "perr!":
